@@ -93,6 +93,13 @@ def sweeps_stage(ck, checks, tag, algos):
     ck.ev.cov["installed_graphs"] = len(graphs) + (40 if q else 1500)
 
 
+def deep_stage(ck, checks, tag, which):
+    """Deep worlds (a flow path of 70 000+ nodes; a valley with 2 600+ consecutive confluences): see cf.deep_cases."""
+    cases = list(cf.deep_cases(tag, which, quick=ck.tier == "quick"))
+    ck.traces(cases, checks, tag=tag, nontrivial=lambda c: True, timeout_ms=120000, sample_events=("Update", "Basins"), nproc=3)
+    ck.ev.cov["deep_worlds"] = len(cases)
+
+
 def plan_C01(ck):
     q = ck.tier == "quick"
     basin_models(ck, "L2 mst resolver: every terminal state satisfies FlowContract!C01 (terminals, strict descent, reaches a base level), the receivers stay a forest, the tree is a minimal spanning forest, termination")
@@ -172,6 +179,9 @@ def plan_C06(ck):
     sweeps_stage(ck, ["C06"], "c06inj", ())
     if q and ck.violations:
         return
+    deep_stage(ck, ["C06"], "c06deep", ("path", "valley"))
+    if q and ck.violations:
+        return
     # graph snapshots are flow graphs too: the tables they expose are checked like any other state
     ck.traces(cf.snapshot_cases(ck.seed + 160, 40 if q else 800, 5, "C06snap"), ["C06"], tag="c06snap", nontrivial=cf.nontrivial_world)
 
@@ -183,6 +193,9 @@ def plan_C19(ck):
     if q and ck.violations:
         return
     sweeps_stage(ck, ["C19"], "c19inj", ("basins",))
+    if q and ck.violations:
+        return
+    deep_stage(ck, ["C19"], "c19deep", ("valley", "path"))
     # snapshot graphs are flow graphs too: basins() on them, repeatedly, across updates of the owner
     ck.traces(cf.snapshot_cases(ck.seed + 119, 60 if q else 1500, 4 if q else 6, "C19snap"), ["C19"], tag="c19snap",
               nontrivial=cf.nontrivial_world, sample_events=("Basins",))
